@@ -8,12 +8,33 @@ import sys
 from pathlib import Path
 from typing import Annotated, Optional
 
-from experimaestro import Config, Constant, Meta, Param, pathgenerator
+from experimaestro import Config, Constant, Meta, Param, PathGenerator, field, pathgenerator
 
 from . import universe
 
 _THIS = sys.modules[__name__]
 _CACHE = {}
+
+def _run_name(context, config):
+    """A generated value that depends on where the configuration is sealed"""
+    return f"run-{Path(context.path).name}"
+
+
+class GenA(Config):
+    """Default value of a configuration-valued parameter: holds a generated path (annotation form)"""
+
+    __xpmid__ = "vx.dyn.gena"
+    x: Param[int] = 1
+    path: Annotated[Path, pathgenerator("gena.txt")]
+
+
+class GenM(Config):
+    """... generated path declared as Meta[Path] = field(default_factory=PathGenerator(...))"""
+
+    __xpmid__ = "vx.dyn.genm"
+    x: Param[int] = 1
+    path: Meta[Path] = field(default_factory=PathGenerator("genm.txt"))
+
 
 EXTRA_KINDS = {
     # name -> (annotation, default)
@@ -27,6 +48,13 @@ EXTRA_KINDS = {
     "xfi": (Param[float], 1),
     "xif": (Param[int], 2.0),
     "xb0": (Param[bool], 0),
+    # generated values that are neither paths nor Meta
+    "xgn": (Param[str], lambda: field(default_factory=_run_name)),
+    "xgv": (Param[int], lambda: field(default_factory=lambda: 2)),
+    # defaults that are configurations (plain; holding a generated path in its two declaration forms)
+    "xcl": (Param[universe.Leaf], lambda: universe.Leaf(i=1)),
+    "xca": (Param[GenA], lambda: GenA()),
+    "xcm": (Param[GenM], lambda: GenM()),
 }
 
 
@@ -51,7 +79,7 @@ def variant(base_name: str, extras=(), const_k=None):
         a, d = EXTRA_KINDS[name]
         ann[name] = a
         if d is not None:
-            ns[name] = d
+            ns[name] = d() if callable(d) else d
     if const_k is not None:
         ann["k"] = Constant[int]
         ns["k"] = const_k
